@@ -25,4 +25,14 @@ theorem ksin_mirror3 (φ : ℝ) : ksin (3 * (2 * Real.pi - φ)) = -ksin (3 * φ)
   have : 3 * (2 * Real.pi - φ) = -(3 * φ) + (3 : ℕ) * (2 * Real.pi) := by push_cast; ring
   rw [this, Real.sin_add_nat_mul_two_pi, Real.sin_neg]
 
+/-! the same with the harmonic number written on the right (`cos(phi*2)`) -/
+theorem kcos_mirror2' (φ : ℝ) : kcos ((2 * Real.pi - φ) * 2) = kcos (φ * 2) := by
+  rw [mul_comm, kcos_mirror2, mul_comm]
+theorem ksin_mirror2' (φ : ℝ) : ksin ((2 * Real.pi - φ) * 2) = -ksin (φ * 2) := by
+  rw [mul_comm, ksin_mirror2, mul_comm]
+theorem kcos_mirror3' (φ : ℝ) : kcos ((2 * Real.pi - φ) * 3) = kcos (φ * 3) := by
+  rw [mul_comm, kcos_mirror3, mul_comm]
+theorem ksin_mirror3' (φ : ℝ) : ksin ((2 * Real.pi - φ) * 3) = -ksin (φ * 3) := by
+  rw [mul_comm, ksin_mirror3, mul_comm]
+
 end Gep.R
